@@ -63,3 +63,5 @@ Definition contains (sp : specifier) (override arg : option bool) (item : str) :
       if is_prerelease c && negb pre then Ans false
       else match compare_op (sp_op sp) c (sp_text sp) with Some b => Ans b | None => Escaped end
   end.
+(* `item in spec` = Specifier.__contains__ = self.contains(item): no call argument *)
+Definition in_op (sp : specifier) (override : option bool) (item : str) : outcome := contains sp override None item.
